@@ -67,6 +67,16 @@ CLAIMED = {
              "z3-decided identities; positive semi-definiteness per element on a rational material/size grid.",
         note="float64 as exact reals; sqrt(3) is an exact algebraic constant; meshes <= 2x2 / 1x1x1 quick, 3x2 / 2x2x1 "
              "thorough; PSD for rational sizes/material only (symbolic ones time out), assembled by linearity in x."),
+    "C10": dict(
+        text="Partial (the decidable clauses): one real MMA.mmasub step from an arbitrary admissible state with subsolv "
+             "replaced by its contract (enclosure low < alfa <= x <= beta < upp, bounds, move limit, offset clip, P,Q >= 0, "
+             "value and diffz3-gradient reproduction of the approximations); the real subsolv code from an arbitrary "
+             "interior state with an arbitrary direction (every line-search trial keeps x strictly inside and all "
+             "multipliers/slacks positive); residual() against the differentiated Lagrangian; MMA.response design-vector "
+             "plumbing (bound/move expansion, concatenation, gradients per response, write-back) - all decided by z3.",
+        note="NOT covered (not encodable as a bounded symbolic run): that the Newton iteration reaches the requested "
+             "accuracy and that the outer iteration converges on convex problems; n <= 3 (4 for mmasub in the thorough "
+             "tier), m <= 2, one Newton iteration and <= 4 (6) line-search trials per run."),
     "C11": dict(
         text="EigenSolve's own code (dispatch, sorting function, sign rule, normalisation loop, shift handling, the "
              "shift-invert operator and the arguments handed to ARPACK) executed on symbolic A (and B = G G^T + I); LAPACK "
@@ -95,6 +105,14 @@ CLAIMED = {
              "are compared with an independent dense reference, each entry-wise equality decided by z3.",
         note="float64 as exact reals; depth <= 2 quick, seeded subset of depth 3 thorough; shapes up to 3x3; inputs non-zero "
              "except in dedicated zero-vector programs; in-place operators are exercised with dyadic operands only."),
+    "C17": dict(
+        text="Partial: the complete minimize_oc routine for one outer iteration (maxit=1) from an arbitrary admissible "
+             "symbolic design - the inductive step for 'every design produced': on every path (bisection branches, "
+             "stopping tests, positive-gradient clipping) z3 proves xmin <= xnew <= xmax, |xnew - xold| <= move, and that "
+             "each variable signal receives its slice of an independently recomputed OC update.",
+        note="NOT covered: 'volume equals the prescribed maximum to bisection tolerance' (needs the full ~30-step "
+             "data-dependent bisection) and convergence to the analytic optimum; bisection limited to 2 (3) steps through "
+             "the public l1init/l2init/l1l2tol arguments, <= 3 (4) variables in <= 2 signals."),
     "C18": dict(
         text="Histories of Signal/SignalSlice operations (assign, add_sensitivity incl. the same object twice and later "
              "mutation, reset with/without keep_alloc, basic/tuple/integer-array/nested slices) executed on symbolic real "
